@@ -119,6 +119,13 @@ add(property='C02', id='C02-nr-behind', status='fixed', commit='5bdc6b3', clause
                                             ap=('EPD', 2.0), fields=(0.0,)),
                 'rays': [[0.0, 0.0, 0.0], [0.0, 0.5403023058681398, 0.8414709848078965], [0.0, 0.0, 1.0]], 'wl': 0})
 
+add(property='C03', id='C03-backward-launch', status='fixed', commit='7f84765', clause='forward_direction',
+    what='fixed: property=C03 7f84765 rays were launched towards -z when the entrance pupil lies in front of the launch '
+         'plane (stop beyond the rear focal point)',
+    reproducer={'kind': 'launch', 'spec': spec([surf(R=50.0, t=6.0, mat=glass(1.5)), surf(R=-50.0, t=80.0),
+                                               surf(R='inf', t=30.0, stop=True)], ap=('EPD', 6.0), fields=(0.0, 2.0)),
+                'rays': [[0.0, 0.0, 0.0], [0.5, 0.3, 0.4], [1.0, -0.5, 0.5], [1.0, 0.0, 1.0]], 'wl': 0})
+
 if __name__ == '__main__':
     json.dump({'findings': F}, open(os.path.join(HERE, 'known_findings.json'), 'w'), indent=1)
     print(len(F), 'findings written')
